@@ -43,6 +43,7 @@ def concretise(kind, hist, i):
 
 
 FIELDS = {}
+PAIRS = []
 
 
 def model_phase(R):
@@ -69,6 +70,12 @@ def histories(R, tier):
     tlc.require_ok(res)
     R.add_tlc(res)
     hs = [o["h"] for o in tlc.emitted(res, "HIST")]
+    # ... plus every "linearised at X, then at Y" history (length 6) over the ordered pairs of points
+    res = tlc.run("OASLifecycle", "Lifecycle_pairs.cfg", workers=1, timeout=900)
+    tlc.require_ok(res)
+    R.add_tlc(res)
+    PAIRS.clear()
+    PAIRS.extend(o["h"] for o in tlc.emitted(res, "HIST"))
     if tier == "thorough":
         res = tlc.run("OASLifecycle", "Lifecycle_hist.cfg", workers=1, constants={"EmitAt": 13}, simulate="num=150", depth=13, timeout=900)
         R.add_tlc(res)
@@ -185,6 +192,7 @@ def run(tier, only=None):
 
         pick = np.random.default_rng(seed() + 3).choice(len(hs), 450, replace=False)
         hs = [hs[i] for i in sorted(pick)]
+    hs = hs + [h for h in PAIRS if json.dumps(h) not in {json.dumps(x) for x in hs}]
     for k in kinds:
         _L = lifecycle.Live(k)
         FIELDS[k] = (_L.fields(), _L.zero_fields())
